@@ -65,15 +65,15 @@ func (l *idSetLexicon) add(ids ...int32) int32 {
 		return emptySetID
 	}
 
-	// Singleton sets are represented by their element.
-	if len(ids) == 1 {
-		return ids[0]
-	}
-
 	// Canonicalize the set by sorting and removing duplicates.
 	//
 	// Creates a new slice in order to not alter the supplied values.
 	set := uniqueInt32s(ids)
+
+	// Singleton sets are represented by their element.
+	if len(set) == 1 {
+		return set[0]
+	}
 
 	// Non-singleton sets are represented by the bitwise complement of the ID
 	// returned by the sequenceLexicon
